@@ -4,9 +4,9 @@
    Proofs/C19_gate.v (reference runs), Proofs/C19_play.v, Proofs/C19_disp.v.
    offline.NameToUUID, the LoginChecker, the status handler, the handlers' verdicts and zlib are
    explicit parameters of the statements; nothing is assumed globally. *)
-From Coq Require Import List NArith ZArith Bool Permutation.
-From GoMC Require Import Base.Bytes Base.Dec Gen.Consts Model.C05 Model.C07 Model.C19
-  Proofs.C07 Proofs.C19_net Proofs.C19_gate Proofs.C19_play Proofs.C19_disp.
+From Coq Require Import List String NArith ZArith Bool Permutation.
+From GoMC Require Import Base.Bytes Base.Dec Gen.Consts Gen.Gate Model.C05 Model.C07 Model.C19_syntax Model.C19
+  Proofs.C07 Proofs.C19_net Proofs.C19_gate Proofs.C19_play Proofs.C19_disp Proofs.C19_expected Proofs.C19_skel.
 Import ListNotations.
 Open Scope Z_scope.
 
@@ -93,7 +93,7 @@ Theorem C19_play_wire :
   forall (deflate : list N -> list N) (inflate : list N -> option (list N)) (t : Z) (q : list (Z * ppkt)),
   zlib_inverse deflate inflate -> zlib_fits deflate -> tagged t q ->
   forall (upools : list (list N)) (old : rstate) (rest : list N),
-  Forall in_domain (map snd q) -> length upools = length q ->
+  Forall in_domain (map snd q) -> List.length upools = List.length q ->
   run_flat (unpack_seq inflate t upools old) (wire deflate q ++ rest) = FOk (thread old (map snd q)) rest.
 Proof. exact wire_decodes. Qed.
 
@@ -146,10 +146,102 @@ Proof. exact game_all. Qed.
 (* nothing of a bundle is dispatched while it is open *)
 Theorem C19_dispatch_bundle_atomic :
   forall (fails : N -> N -> bool) (e : events) (o1 : pkt) (b : list pkt) (o2 : pkt),
-  is_delim o1 = true -> is_delim o2 = true -> no_delim b -> Z.of_nat (length b) < bundle_cap ->
+  is_delim o1 = true -> is_delim o2 = true -> no_delim b -> Z.of_nat (List.length b) < bundle_cap ->
   handle_game fails e (o1 :: b) = ([], OEnd) /\
   handle_game fails e (o1 :: b ++ [o2]) = finish (handle_all fails e b) TEnd.
 Proof. exact bundle_atomic. Qed.
+
+(* ------------------------------------------------------------------ the machines are the source's *)
+(* Gen/Gate.v is rendered from the repository on every run by tools/gotrans/gate.go: the bodies of
+   join, joinLogin, joinConfiguration, pingAndList, AcceptConn, handshake, AcceptLogin, acceptListPing,
+   AcceptConfig statement by statement in source order (protocol calls structured, the rest as text),
+   and every constant of data/packetid.  The rendered bodies are the ones the model was written
+   against (any edit, e.g. swapping the set-compression write and SetThreshold, breaks this). *)
+Theorem C19_skeleton_source :
+  Gate.bot_join = expected_bot_join /\ Gate.bot_join_login = expected_bot_join_login /\
+  Gate.bot_join_configuration = expected_bot_join_configuration /\
+  Gate.bot_ping_and_list = expected_bot_ping_and_list /\
+  Gate.server_accept_conn = expected_server_accept_conn /\ Gate.server_handshake = expected_server_handshake /\
+  Gate.server_accept_login = expected_server_accept_login /\
+  Gate.server_accept_list_ping = expected_server_accept_list_ping /\
+  Gate.server_accept_config = expected_server_accept_config.
+Proof. exact all_skel_ok. Qed.
+
+(* the 30 packet ids / guards the model writes by hand are the values of the source's constants, and the
+   joinConfiguration cases left opaque are exactly the ids 8..15 the model maps to `unmodelled` *)
+Theorem C19_skeleton_ids :
+  map snd (firstn 30 id_table) = map pid id_names /\ opaque_config_ids = [8; 9; 10; 11; 12; 13; 14; 15].
+Proof. exact ids_all_from_source. Qed.
+
+(* the bot's two receive switches: on EVERY configuration, state and frame the model's step function is
+   the interpretation (run_cases: case by packet id, Scan by field kinds, SetThreshold, at most one
+   write, return nil / disconnect / next iteration) of the cases rendered from the source *)
+Theorem C19_skeleton_bot_login :
+  forall (c : bcfg) (b : bot) (f : frame),
+  bot_login c b f = run_cases c b f BLogin BConfig stLogin (loop_cases Gate.bot_join_login).
+Proof. exact bot_login_is_source. Qed.
+Theorem C19_skeleton_bot_config :
+  forall (c : bcfg) (b : bot) (f : frame), b_ph b = BConfig ->
+  bot_config c b f = run_cases c b f BConfig BJoined stConfig (loop_cases Gate.bot_join_configuration).
+Proof. exact bot_config_is_source. Qed.
+
+(* the server after the login-start packet: the frames written until the next read / return, each with
+   the threshold it is written under, and the final threshold, are those of interpreting AcceptLogin's
+   statements after its Scan in SOURCE ORDER (run_seg: a write is tagged with the threshold in force,
+   SetThreshold changes it) - for every Threshold, checker verdict, name; refusal continues in the error
+   branch of AcceptConn.  This is where the order `write set-compression; SetThreshold` enters C19_join. *)
+Theorem C19_skeleton_server_login :
+  forall (offline_uuid : list N -> list N) (sc : scfg) (s0 : srv) (f : frame) (n u : list N) (more : list field),
+  f_id f = sbLoginHello -> f_fields f = FString n :: FUUID u :: more ->
+  let s1 := srv_login_start offline_uuid sc s0 f in
+  let sn := {| s_ph := s_ph s0; s_thr := s_thr s0; s_proto := s_proto s0; s_name := n; s_uuid := offline_uuid n |} in
+  let '(w, thr, st) := run_seg fuel0 (srv_sem sc sn) (s_thr s0) (after_scan Gate.server_accept_login) in
+  match st with
+  | StRead _ => verdict sc sn = None /\
+                drain (srv_act offline_uuid sc) 6 s1 = (w, with_thr sn thr SAwaitAck)
+  | StReturn _ =>
+      exists r, verdict sc sn = Some r /\
+      let '(w2, thr2, st2) := run_seg fuel0 (srv_sem sc sn) thr (login_error_branch Gate.server_accept_conn) in
+      st2 = StReturn ""%string /\
+      drain (srv_act offline_uuid sc) 6 s1 = (w ++ w2, with_thr sn thr2 (SClosed scRefused))
+  | _ => False
+  end.
+Proof. exact srv_login_is_source. Qed.
+
+(* the stock AcceptConfig: registry data, finish, return without reading the acknowledgement *)
+Theorem C19_skeleton_server_config :
+  forall (offline_uuid : list N -> list N) (sc : scfg) (s : srv), sc_cfg sc = CfgStock ->
+  exists w, run_seg fuel0 (srv_sem sc s) (s_thr s) Gate.server_accept_config = (w, s_thr s, StReturn "err"%string) /\
+            drain (srv_act offline_uuid sc) 4 (s_set s (cfg_phase sc)) = (w, s_set s SJoined).
+Proof. exact srv_config_is_source. Qed.
+
+(* the bot's writes before its reads: join (handshake; joinLogin: login start; loop; after both calls
+   return nil nothing more is written) and pingAndList (handshake with next state 1, status request;
+   after the response the ping with the time stamp) *)
+Theorem C19_skeleton_bot_join_writes :
+  forall c : bcfg,
+  exists w1 r1 w2 body r2,
+    run_seg fuel0 (bot_sem c [] frame0) (-1) Gate.bot_join
+      = (w1, -1, StCall "err := c.joinLogin(conn); err != nil"%string r1) /\
+    run_seg fuel0 (bot_sem c [] frame0) (-1) Gate.bot_join_login = (w2, -1, StLoop body) /\
+    drain (bot_act c) 5 (bot_join_init c)
+      = (w1 ++ w2, {| b_ph := BLogin; b_thr := -1; b_name := []; b_uuid := bc_claim c |}) /\
+    run_seg fuel0 (bot_sem c [] frame0) (-1) r1
+      = ([], -1, StCall "err := c.joinConfiguration(conn); err != nil"%string r2) /\
+    run_seg fuel0 (bot_sem c [] frame0) (-1) r2 = ([], -1, StReturn "nil"%string).
+Proof. exact bot_join_prelude_is_source. Qed.
+Theorem C19_skeleton_bot_ping_writes :
+  forall c : bcfg,
+  exists w1 r1,
+    run_seg fuel0 (bot_sem c [] frame0) (-1) Gate.bot_ping_and_list = (w1, -1, StRead r1) /\
+    drain (bot_act c) 5 (bot_ping_init c)
+      = (w1, {| b_ph := BStatusList; b_thr := -1; b_name := []; b_uuid := bc_claim c |}) /\
+    forall (b : bot) (json : list N), exists w2 r2,
+       run_seg fuel0 (bot_sem c [("s"%string, FString json)] frame0) (b_thr b) (snd (split_scan (tl r1)))
+         = (w2, b_thr b, StRead r2) /\
+       drain (bot_act c) 5 (b_set b (BSend sbStatusPing [FLong (bc_time c)] (BStatusPong json (bc_time c))))
+         = (w2, b_set b (BStatusPong json (bc_time c))).
+Proof. exact bot_ping_prelude_is_source. Qed.
 
 (* ------------------------------------------------------------------ the hypotheses are satisfiable *)
 Definition ex_uuid (n : list N) : list N := rev n ++ [7%N].
@@ -170,7 +262,7 @@ Proof. eexists. split; reflexivity. Qed.
 Example C19_join_runs :
   let f := grun_greedy ex_uuid ex_bc (ex_sc 256 false CfgFinishOnly) 100 (join_init ex_bc) in
   b_ph (x_b f) = BJoined /\ s_ph (x_s f) = SJoined /\ b_uuid (x_b f) = [101;118;101;116;83;7]%N /\
-  b_thr (x_b f) = 256 /\ s_thr (x_s f) = 256 /\ length (x_s2c_hist f) = 3%nat.
+  b_thr (x_b f) = 256 /\ s_thr (x_s f) = 256 /\ List.length (x_s2c_hist f) = 3%nat.
 Proof. vm_compute. repeat split; reflexivity. Qed.
 (* a server that switched its threshold BEFORE sending set-compression would be caught by `clean`:
    a frame tagged 256 read by a bot still at -1 *)
@@ -215,3 +307,11 @@ Print Assumptions C19_dispatch_tables.
 Print Assumptions C19_dispatch_packet.
 Print Assumptions C19_dispatch_game.
 Print Assumptions C19_dispatch_bundle_atomic.
+Print Assumptions C19_skeleton_source.
+Print Assumptions C19_skeleton_ids.
+Print Assumptions C19_skeleton_bot_login.
+Print Assumptions C19_skeleton_bot_config.
+Print Assumptions C19_skeleton_server_login.
+Print Assumptions C19_skeleton_server_config.
+Print Assumptions C19_skeleton_bot_join_writes.
+Print Assumptions C19_skeleton_bot_ping_writes.
